@@ -65,6 +65,10 @@ def jobs(tier, seed):
                                       label=f'generate nr_exp={nr_exp} ntheta_exp={nt_exp} aniso={aniso} divideBy2={div2} refinement={["free","inside","default-0"][mode]} maxlev={maxlev}',
                                       cls='generate-aniso' if aniso > 0 else 'generate', expect='any', eager=True, feas_timeout=10, concretize=True, fork_int_selects=True,
                                       witness=False, max_paths=600, no_obligations_ok=True))
+    # the level count for every grid size (symbolic node counts; generated, file-loaded and anisotropic grids alike)
+    for maxlev, hi_r, hi_t in (((-1, 300, 64), (3, 150, 128)) if q else ((-1, 1100, 128), (2, 600, 256), (4, 300, 2100))):
+        J.append(dict(entry='h_level_count', args=[maxlev, hi_r, hi_t], label=f'level count maxlev={maxlev} nr<={hi_r} ntheta<={hi_t}', cls='level-count', expect='any', eager=True,
+                      feas_timeout=10, witness=False, max_paths=2000, no_obligations_ok=True, reach=['levels-chosen']))
     for nrad in ((0, 1, 3) if q else (0, 1, 2, 3, 5)):
         for nang in ((0, 2, 4) if q else (0, 1, 2, 3, 5)):
             J.append(dict(entry='h_from_files', args=[nrad, nang], label=f'files radii={nrad} angles={nang}', cls='files', expect='any', eager=True, feas_timeout=10,
